@@ -33,7 +33,7 @@ REJECT_OWNER = {
     'c.refuse': 'C03', 'c.dropshutdown': 'C03', 'c.badframe': 'C03', 'c.close': 'C03', 'c.close.dup': 'C03',
     'c.unregister': 'C02', 'c.finish': 'C02', 'c.errdone': 'C02', 'c.ackdone': 'C02', 'c.eofsweep': 'C02',
     'call.signal': 'C02', 'c.sweep': 'C02', 'c.swept': 'C02',
-    'h.begin': 'C04', 'h.end': 'C04', 'v.dispatch': 'C04', 'v.recv': 'C04', 'v.eof': 'C04', 'w.write': 'C04',
+    'h.begin': 'C04', 'h.end': 'C04', 'v.dispatch': 'C04', 'v.recv': 'C04', 'v.eof': 'C04', 'v.drop': 'C04', 'w.write': 'C04',
     'c.ctx.ret': 'C19',
 }
 
